@@ -23,10 +23,29 @@ TECHNIQUE = "explicit-state closure, packet-level macro steps, per-cycle strobe 
 FRAMES = (0, 1, 2, 0x3FF, 0x7FE, 0x7FF)
 
 
+BAD = {"crc1": ("crc", 1), "crc7fe": ("crc", 0x7FE), "pid": ("pid", 2), "short": ("short", 0x3FF), "long": ("long", 2)}
+SIDE = {"in+ack": ("in", 1), "in": ("in", 0), "out0": ("out", U.DATA0, "b"), "out1sof": ("out", U.DATA1, "sof"), "ack": ("hs", U.ACK),
+        "tok-other": ("tok-other",)}
+
+
 def configs(tier):
-    cs = [dict(gap=1, pace=1, ready=1), dict(gap=3, pace=1, ready=2), dict(gap=2, pace=8, ready=8)]
+    # The tokenizer keeps the last token's raw field next to the frame registers, so the closure grows with
+    # |frames| x |distinct packets| x endpoint states: the alphabet is split over configurations (every frame value, every
+    # corruption kind and every kind of side traffic occurs in several of them, always together with frame repeats).
+    t = lambda gap, pace, ready, frames, bad, side: dict(gap=gap, pace=pace, ready=ready, frames=frames, bad=bad, side=side)
+    cs = [t(1, 1, 1, [0, 1, 0x7FF], ["crc1", "short"], ["in+ack", "in"]),
+          t(1, 1, 1, [2, 0x3FF, 0x7FE], ["crc7fe", "pid", "long"], ["in+ack"]),
+          t(1, 1, 1, [0, 0x7FE, 0x7FF], ["crc7fe", "long"], ["out0", "out1sof"]),
+          t(3, 1, 2, [1, 2, 0x3FF], ["pid", "crc1"], ["ack", "tok-other", "in"]),
+          t(2, 8, 8, [0, 1, 0x7FF], ["crc1", "short"], ["in+ack"]),
+          t(2, 8, 1, [0x7FE, 0x7FF, 0], ["long"], ["out0", "tok-other"])]
     if tier == "thorough":
-        cs += [dict(gap=1, pace=2, ready=3), dict(gap=8, pace=1, ready=1), dict(gap=1, pace=8, ready=1), dict(gap=5, pace=3, ready=2)]
+        cs += [t(1, 1, 1, list(FRAMES), ["crc1", "crc7fe", "pid", "short", "long"], []),
+               t(1, 1, 1, [0, 1, 2, 0x7FF], ["crc1"], ["in+ack", "in", "out0"]),
+               t(1, 2, 3, [0x3FF, 0x7FE, 0x7FF, 0], ["crc7fe", "short"], ["in+ack", "out1sof", "ack"]),
+               t(8, 1, 1, [0, 1, 0x7FF], ["pid", "long"], ["in+ack", "in", "out0", "tok-other"]),
+               t(5, 3, 2, [2, 0x3FF, 0x7FE], ["crc7fe", "short"], ["in", "out0", "ack"]),
+               t(1, 8, 1, list(FRAMES), ["crc1", "long"], ["in+ack"])]
     return cs
 
 
@@ -39,10 +58,11 @@ class FrameSpec(Spec):
         self.time_budget = 60 if tier == "quick" else 800
         self.host = Host(gap=cfg["gap"], pace=cfg["pace"], ready_period=cfg["ready"],
                          extra=dict(connect=1, in_valid=1, in_payload=0x5A, out_ready=1))
-        acts = [("sof", n) for n in FRAMES]
-        acts += [("badsof", "crc", 1), ("badsof", "crc", 0x7FE), ("badsof", "pid", 2), ("badsof", "short", 0x3FF), ("badsof", "long", 2)]
-        acts += [("in", 1), ("in", 0), ("out", U.DATA0, "b"), ("out", U.DATA1, "sof"), ("hs", U.ACK), ("tok-other",)]
+        acts = [("sof", n) for n in cfg["frames"]]
+        acts += [("badsof",) + BAD[b] for b in cfg["bad"]]
+        acts += [SIDE[x] for x in cfg["side"]]
         self._acts = acts
+        self._side = set(cfg["side"])
 
     def build(self):
         from luna.gateware.usb.usb2.endpoints.stream import USBStreamInEndpoint, USBStreamOutEndpoint
@@ -68,8 +88,13 @@ class FrameSpec(Spec):
     def env0(self): return (0, 0, 1)
     def actions(self, env): return self._acts
     def goals(self):
-        return ["frame-change", "frame-repeat", "microframe-wrap", "frame-wrap-7ff-to-0", "corrupt-sof-ignored", "other-packet",
-                "device-sent-data-between-sofs", "device-acked-out-between-sofs"]
+        g = ["frame-change", "frame-repeat", "microframe-wrap", "corrupt-sof-ignored"]
+        fr = self.cfg["frames"]
+        if 0 in fr and 0x7FF in fr: g.append("frame-wrap-7ff-to-0")
+        if self._side: g.append("other-packet")
+        if self._side & {"in", "in+ack"}: g.append("device-sent-data-between-sofs")
+        if self._side & {"out0", "out1sof"}: g.append("device-acked-out-between-sofs")
+        return g
 
     def _packet(self, a):
         """-> (bytes, abort_after)"""
